@@ -3,6 +3,7 @@
    layers; here only the input classes are delimited so that any *other* crash is a violation.
    No proofs here. *)
 From VV.EXP Require Export Names.
+From VV.M1 Require Import Diff.
 
 Definition types_of_action (a : action) : list column_type :=
   match a with
@@ -27,3 +28,14 @@ Definition known_C16_history_rawsql (history : list plan) : bool :=
 (* some table of the normalised slice starts a single-column FK chain that never ends (D15) *)
 Definition known_C16_models_fk_cycle (slice : schema) : bool :=
   existsb (known_C16_fk_cycle slice) slice.
+
+(* plan_next_migration refuses table-level FK cycles among tables it has to create ("Circular foreign key
+   dependency"): an error, not a panic, but on a history the tool produced itself (M1 model of the planner) *)
+Definition known_C16_plan_cycle (models : schema) (history : list plan) : bool :=
+  match plan_next models history with Err (PlanDiff DiffCycle) => true | _ => false end.
+
+(* all C16 classifiers of one O-C16 case = (normalised slice, models as written, history) *)
+Definition classify_c16 (c : schema * schema * list plan) : list bool :=
+  let '(slice, models, history) := c in
+  [known_C16_sqlite_numeric models history; known_C16_sqlite_interval models history;
+   known_C16_history_rawsql history; known_C16_models_fk_cycle slice; known_C16_plan_cycle models history].
